@@ -98,6 +98,7 @@ pub fn run_c06(ctx: &mut Ctx) {
             mech: Mech::None,
             user: "u".into(),
             password: "p".into(),
+            password_raw: "p".into(),
             fingerprint: false,
             max_transactions: 10,
         };
@@ -209,6 +210,11 @@ pub fn run_c15(ctx: &mut Ctx) {
         let mut cfg = gen_cfg(rng, Some(mech), &[10]);
         cfg.reliable = None;
         cfg.rto_ns = 100_000_000 + rng.below(2_900_000_000);
+        if rng.bool() {
+            // round configured values (ms multiples of 3, 4 or 10), as people configure them
+            let q = *rng.pick(&[3_000_000u64, 12_000_000, 10_000_000, 300_000_000]);
+            cfg.rto_ns = (cfg.rto_ns / q).max(1) * q;
+        }
         cfg.granularity_ns = *rng.pick(&[1_000u64, 1_000_000, 5_000_000, 20_000_000, 50_000_000]);
         if let Some(sim) = run_history(ctx, rng, cfg, &p) {
             if sim.rtt_incomparable {
